@@ -3,7 +3,7 @@ REPO ?= /repo
 BUILD ?= /verif/build
 CXX = g++
 COMMON = -std=c++17 -fopenmp -I$(REPO)/src -Isim -MMD -MP -Wall -Wno-unused-parameter -Wno-sign-compare -Wno-unknown-pragmas
-PLAIN_FLAGS = $(COMMON) -O2 -DNDEBUG
+PLAIN_FLAGS = $(COMMON) -O2 -g -DNDEBUG
 ASAN_FLAGS = $(COMMON) -O1 -g -DTBFSIM_ASAN -fsanitize=address,undefined -fsanitize-recover=address -fno-sanitize-recover=undefined -fno-omit-frame-pointer
 
 CORE_SRC = sim/core.cpp sim/gompsim.cpp sim/probe.cpp sim/oracles.cpp sim/gen.cpp sim/recipes.cpp sim/main.cpp
@@ -26,10 +26,10 @@ $(BUILD)/tbfsim_asan: $(ASAN_OBJ)
 $(BUILD)/plain/w_specx.o $(BUILD)/asan/w_specx.o: EXTRA = -Isim/stubs/specx
 $(BUILD)/plain/w_starpu.o $(BUILD)/asan/w_starpu.o: EXTRA = -Isim/stubs/starpu
 
-$(BUILD)/plain/%.o: sim/%.cpp
+$(BUILD)/plain/%.o: sim/%.cpp Makefile
 	@mkdir -p $(dir $@)
 	$(CXX) $(PLAIN_FLAGS) $(EXTRA) -c $< -o $@
-$(BUILD)/asan/%.o: sim/%.cpp
+$(BUILD)/asan/%.o: sim/%.cpp Makefile
 	@mkdir -p $(dir $@)
 	$(CXX) $(ASAN_FLAGS) $(EXTRA) -c $< -o $@
 
